@@ -21,7 +21,7 @@ Extraction "../ocaml/model.ml"
   MVT.write_varint MVT.read_varint MVT.zz_enc MVT.zz_dec
   Recompress.recompressor Recompress.optimize Recompress.compress Recompress.framed Recompress.process
   Crash.vt_wfb Crash.pm_wfb Crash.vt_parse_header Crash.pm_view Crash.crash_state Crash.run_ops Crash.vt_index_of
-  TileId.coord_to_tile_id TileId.tile_id_to_coord PMDir.serialize PMDir.serialize_with PMDir.deserialize PMDir.find_tile PMDir.pm_lookup PMDir.cov_ids
+  Constants.pm_arith_variant Constants.pm_depth_variant TileId.coord_to_tile_id TileId.tile_id_to_coord PMDir.serialize PMDir.serialize_with PMDir.deserialize PMDir.find_tile PMDir.pm_lookup PMDir.cov_ids
   VTFormat.vt_write VTFormat.vt_lookup N.sub
   Cache.run Cache.empty
   BBox.new BBox.new_full BBox.new_empty BBox.is_empty BBox.width BBox.height BBox.count_tiles BBox.contains2 BBox.contains3
